@@ -67,6 +67,20 @@ package getsvc
 //@ callrule c23_recovery_resumes_in_the_failed_part in (*Service).copyECObjectRangeByParts
 //@   callee ec.DecodeRange
 //@   requires [recovery_starts_at_the_failed_part_after_what_was_written] a1 == failedIdx() && (wide(origFirstOff()) + wide(failedWritten()) < 18446744073709551616 ==> wide(firstPartOff) == ite(failedIdx() != origFirstIdx(), 0, wide(origFirstOff())) + wide(failedWritten()))
+// A ranged read of an EC object starts by learning the parent's payload length from the parent
+// header that every part carries. With up to the parity count of parts missing the range must
+// still be served, so the look-up may give up only after every part of the rule was asked -
+// not after the first one alone.
+//@ ghost field partsAskedForTheParentHeader(x int) int
+//@ ghost pred parentHeaderLookupFailed() bool
+//@ callrule c23_parent_header_lookup in (*Service).copyECObjectRangeByRule
+//@   callee (*get.Service).getECPartStream
+//@   assigns partsAskedForTheParentHeader
+//@   defines partsAskedForTheParentHeader(0) == old(partsAskedForTheParentHeader(0)) + 1 && (res2 != nil) == parentHeaderLookupFailed()
+//@ func (*Service).copyECObjectRangeByRule
+//@   valid partsAskedForTheParentHeader(0) == 0
+//@   ensures [range_read_gives_up_on_the_parent_header_only_after_every_part] res2 != nil && parentHeaderLookupFailed() && resultOf(res2, "fmt.Errorf") ==> partsAskedForTheParentHeader(0) >= int(rule.DataPartNum) + int(rule.ParityPartNum)
+
 // What the recovery writes of each recovered part: from the resume offset in the first part
 // (the beginning of every other part) up to the requested end in the last part (the end of
 // every other part) - also when the first part is the last one.
